@@ -5,6 +5,7 @@ import (
 	"go/token"
 	"go/types"
 	"os"
+	"sort"
 	"strings"
 
 	"golang.org/x/tools/go/ssa"
@@ -49,10 +50,24 @@ func reachesCallee(p *Program, fn *ssa.Function, name string, depth int) bool {
 // findCompactionWriter: the function that builds a merged view and rewrites
 // it record by record (calls NewMerged and Iterator.NextRef).
 func findCompactionWriter(p *Program) *ssa.Function {
-	var found []*ssa.Function
+	// candidates reach all three of NewMerged, Iterator.NextRef and Writer.AddRef
+	// (directly or through extracted helpers); the anchor is the innermost one:
+	// the candidate none of whose callees is a candidate itself
+	cand := map[*ssa.Function]bool{}
 	for _, f := range p.Funcs {
-		dc := directCallees(f)
-		if dc["(*Iterator).NextRef"] && dc["(*Writer).AddRef"] && reachesCallee(p, f, "NewMerged", 3) {
+		if f.Parent() == nil && reachesCallee(p, f, "NewMerged", 3) && reachesCallee(p, f, "(*Iterator).NextRef", 3) && reachesCallee(p, f, "(*Writer).AddRef", 3) {
+			cand[f] = true
+		}
+	}
+	var found []*ssa.Function
+	for f := range cand {
+		inner := true
+		for k := range directCallees(f) {
+			if g := p.Func(k); g != nil && g != f && cand[g] {
+				inner = false
+			}
+		}
+		if inner {
 			found = append(found, f)
 		}
 	}
@@ -85,7 +100,8 @@ func analyseCompaction(p *Program) *compactAnalysis {
 			"(*Iterator).NextRef": true, "(*Iterator).NextLog": true},
 		Pure: map[string]bool{"(*RefRecord).IsDeletion": true, "(*LogRecord).IsDeletion": true, "(*Reader).MinUpdateIndex": true, "(*Reader).MaxUpdateIndex": true,
 			"(*Reader).Name": true},
-		Opaque: map[string]bool{"(*Merged).SeekRef": true, "(*Merged).SeekLog": true, "NewWriter": true},
+		Opaque:       map[string]bool{"(*Merged).SeekRef": true, "(*Merged).SeekLog": true, "NewWriter": true},
+		NormSubslice: true,
 		OnStoreHook: func(c *simClient, x *Exec, st *State, fr *Frame, pos token.Pos, addr, val, old *Term) {
 			if addr.Op == "field" && addr.Aux == "Merged.suppressDeletions" && val != tFalse {
 				a.rawViol = append(a.rawViol, p.pos(pos))
@@ -154,11 +170,17 @@ func (a *compactAnalysis) rangeBounds(r *Report, p *Program) {
 					}
 					continue
 				}
-				for _, ip := range intParams {
-					if s.St.truth(tLt(idx, ip)) == 0 && a.first == nil {
+				var ipKeys []string
+				for k := range intParams {
+					ipKeys = append(ipKeys, k)
+				}
+				sort.Strings(ipKeys)
+				for _, k := range ipKeys {
+					ip := intParams[k]
+					if a.first == nil && provedLe(s.St, ip, idx) {
 						a.first = ip
 					}
-					if s.St.truth(tLt(ip, idx)) == 0 && a.last == nil && ip != a.first {
+					if a.last == nil && ip != a.first && provedLe(s.St, idx, ip) {
 						a.last = ip
 					}
 				}
@@ -307,8 +329,24 @@ func checkCompactionTables(p *Program, r *Report, wantExpiry, wantTomb bool) {
 			_ = stack
 			wantMin := "(*Reader).MinUpdateIndex"
 			wantMax := "(*Reader).MaxUpdateIndex"
-			okMin := sl.Args[1].Op == "pcall" && sl.Args[1].Aux == wantMin && sl.Args[1].Args[0].Op == "elem" && sl.Args[1].Args[0].Args[1] == a.first
-			okMax := sl.Args[2].Op == "pcall" && sl.Args[2].Aux == wantMax && sl.Args[2].Args[0].Op == "elem" && sl.Args[2].Args[0].Args[1] == a.last
+			sameIdx := func(x, y *Term) bool {
+				if x == y {
+					return true
+				}
+				bc := &boundsClient{arrLen: map[string]int64{}, dropped: map[string]map[string]bool{}}
+				d := bc.lin(s.St, x).add(bc.lin(s.St, y), -1)
+				if d.c != 0 {
+					return false
+				}
+				for _, co := range d.coef {
+					if co != 0 {
+						return false
+					}
+				}
+				return true
+			}
+			okMin := sl.Args[1].Op == "pcall" && sl.Args[1].Aux == wantMin && sl.Args[1].Args[0].Op == "elem" && sameIdx(sl.Args[1].Args[0].Args[1], a.first)
+			okMax := sl.Args[2].Op == "pcall" && sl.Args[2].Aux == wantMax && sl.Args[2].Args[0].Op == "elem" && sameIdx(sl.Args[2].Args[0].Args[1], a.last)
 			if !okMin || !okMax {
 				r.violate("COMPACT-LIMITS", fk+" / limits of the output", p.pos(a.fn.Pos()), fmt.Sprintf("output limits are (%s, %s), expected (min of stack[first], max of stack[last])", sl.Args[1], sl.Args[2]), witnessOf(p, s.St.trace))
 			} else {
